@@ -16,6 +16,7 @@ package push
 import (
 	"reflect"
 	"sync"
+	"sync/atomic"
 	"time"
 
 	"github.com/hprose/hprose-golang/v3/io"
@@ -31,6 +32,8 @@ type Prosumer struct {
 	queue         []map[string][]Message
 	queueLock     sync.Mutex
 	dispatching   bool
+	polling       int32 // 1 while the poll loop runs
+	pollAgain     int32 // a Subscribe found the loop running: it must not end without another poll
 	RetryInterval time.Duration
 	OnError       func(error)
 	OnSubscribe   func(topic string)
@@ -173,6 +176,12 @@ func (p *Prosumer) message() {
 		topics, err := p.proxy.message()
 		if err == nil {
 			if topics == nil {
+				// the loop ends; a Subscribe that relied on it since its last poll was
+				// sent gets another poll
+				atomic.StoreInt32(&p.polling, 0)
+				if atomic.SwapInt32(&p.pollAgain, 0) == 1 && atomic.CompareAndSwapInt32(&p.polling, 0, 1) {
+					continue
+				}
 				return
 			}
 			p.enqueue(topics)
@@ -198,7 +207,17 @@ func (p *Prosumer) Subscribe(topic string, callback Callback) (result bool, err 
 	if p.ID() != "" {
 		p.callbacks.Store(topic, callback)
 		result, err = p.proxy.subscribe(topic)
-		go p.message()
+		// one poll loop per Prosumer: with a loop per Subscribe two loops are alive for a
+		// while and hand their batches over in either order
+		if atomic.CompareAndSwapInt32(&p.polling, 0, 1) {
+			go p.message()
+		} else {
+			atomic.StoreInt32(&p.pollAgain, 1)
+			if atomic.CompareAndSwapInt32(&p.polling, 0, 1) { // the loop has just ended
+				atomic.StoreInt32(&p.pollAgain, 0)
+				go p.message()
+			}
+		}
 		p.onSubscribe(topic)
 	}
 	return
